@@ -47,6 +47,8 @@ pub ghost enum Item {
     RpcError(rpc::Error),           // an <rpc-error> subtree, parsed by rpc::Error::read_xml to this value
     Data,                           // a payload subtree parsed by D::read_xml
     TextOf(Seq<u8>),                // the text content of a leaf element consumed by read_text()
+    ReadFailed,                     // read_resolved_event() / read_text() reported a syntax error
+    SkipFailed,                     // read_to_end() reported an error while skipping an element's content
 }
 
 pub struct NsReader { pub remaining: Ghost<Seq<(ResolveResult, Event)>>, pub log: Ghost<Seq<Item>> }
@@ -62,7 +64,7 @@ impl NsReader {
                     && final(self).remaining@.len() == old(self).remaining@.len() - 1
                     && final(self).log@ == old(self).log@.push(Item::Ev(p.0, p.1))
                 },
-            Err(_) => final(self).remaining@.len() <= old(self).remaining@.len() && is_prefix(old(self).log@, final(self).log@),
+            Err(e) => final(self).remaining@.len() <= old(self).remaining@.len() && final(self).log@ == old(self).log@.push(Item::ReadFailed),
         }
     { unimplemented!() }
 }
@@ -112,7 +114,7 @@ impl NsReader {
         ensures
             final(self).remaining@.len() <= old(self).remaining@.len(),
             r is Ok ==> final(self).log@ == old(self).log@.push(Item::TextOf(r->Ok_0.v@)),
-            r is Err ==> is_prefix(old(self).log@, final(self).log@),
+            r is Err ==> final(self).log@ == old(self).log@.push(Item::ReadFailed),
     { unimplemented!() }
 }
 
@@ -126,8 +128,8 @@ impl NsReader {
     pub fn read_to_end(&mut self, end: QName) -> (r: Result<Span, XmlError>)
         ensures
             final(self).remaining@.len() <= old(self).remaining@.len(),
-            r is Ok ==> exists|k: int| 0 <= k <= old(self).remaining@.len() && final(self).remaining@ == old(self).remaining@.skip(k)
-                && #[trigger] final(self).log@ == old(self).log@ + evs_items(old(self).remaining@.take(k)),
-            r is Err ==> is_prefix(old(self).log@, final(self).log@),
+            r is Ok ==> exists|k: int| 0 <= k <= old(self).remaining@.len() && final(self).remaining@ == #[trigger] old(self).remaining@.skip(k)
+                && final(self).log@ == old(self).log@ + evs_items(old(self).remaining@.take(k)),
+            r is Err ==> final(self).log@ == old(self).log@.push(Item::SkipFailed),
     { unimplemented!() }
 }
